@@ -22,7 +22,9 @@ Texts == { T(<<97>>),                     \* "a"
            T(<<97, 98, 32, 99>>),         \* "ab c"
            T(<<46>>),                     \* "."   (written ".." after a reference)
            T(<<45, 120>>),                \* "-x"
-           T(<<32, 59, 32>>) }            \* " ; "
+           T(<<32, 59, 32>>),             \* " ; "
+           T(<<49, 46, 46, 51>>),         \* "1..3"  (dots inside plain text are plain text)
+           T(<<46, 46, 46>>) }            \* "..."
 Refs == { Rf("variables", "x", <<120>>, "", <<>>),
           Rf("variables", "t", <<116>>, "k", <<107>>),
           Rf("variables", "s", <<115>>, "1", <<49>>),
